@@ -295,6 +295,17 @@ struct Proto {
       bk_warm = heap_live_with_tag(0);
       unit = bk_warm - bk_before;
     }
+    // Start from non-initial states: before the first generation T0 passes through 0 .. phases-1 further critical
+    // regions, each with one retirement (epoch based schemes: the global epoch - and with it every index computed
+    // modulo the number of epochs - differs by one per round; hazard eras: the era clock; seed C17d: an adopted
+    // control block misplaces retired nodes only if the epoch is 2 modulo 3).  Enumerated as a DATA choice.
+    const int phases = (int)opt("phases", 1);
+    if (phases > 1) {
+      const int k = choose(phases);
+      op_begin(OP_FLUSH);
+      flush(k);
+      op_end();
+    }
     for (int gen = 0; gen < gens; gen++) {
       // choose the program of this generation
       static int ops[MAXT][8], cix[MAXT][8];
@@ -326,6 +337,21 @@ struct Proto {
           }
         any_update = any_read = true;
       }
+      else if (fixed == 3) {
+        // family "adopt a control block next to a long reader" (needs T=3, m>=2, cells=2; run with phases=3*(scan_frequency+1)): a reader that holds
+        // its guard across everything else | a thread that only reads and exits | a thread that starts afterwards (and
+        // adopts the exited thread's record), unlinks and retires the node the reader holds, and enters one more (through the second cell)
+        // critical region (configurations that scan only every n-th entry: m - 1 more).
+        if (T != 3 || m < 2) fail("ENGINE", "fixed=3 needs T=3 m>=2");
+        for (int i = 0; i < m; i++) {
+          ops[0][i] = i == 0 ? OP_READ_HOLD : OP_NONE; // the reader comes first: it has its own record before the second thread exits
+          ops[1][i] = i == 0 ? OP_READ : OP_NONE;
+          ops[2][i] = i == 0 ? OP_REMOVE : OP_READ;
+          cix[0][i] = cix[1][i] = 0;
+          cix[2][i] = (i > 0 && ncells > 1) ? 1 : 0; // reading an emptied cell would not enter a critical region
+        }
+        any_update = any_read = true;
+      }
       for (int t = 0; t < T && !fixed; t++)
         for (int i = 0; i < m; i++) {
           ops[t][i] = alpha[choose(na)];
@@ -336,7 +362,7 @@ struct Proto {
         }
       if (!any_update || (!any_read && !opt("allow_update_only", 0))) prune();
       // thread-symmetry: identical roles only once
-      for (int t = 0; t + 1 < T; t++) {
+      for (int t = 0; t + 1 < T && !fixed; t++) {
         int cmp = 0;
         for (int i = 0; i < m && !cmp; i++) cmp = (ops[t][i] * 8 + cix[t][i]) - (ops[t + 1][i] * 8 + cix[t + 1][i]);
         if (cmp > 0) prune();
